@@ -172,28 +172,58 @@ theorem ids_increase_across_restarts (files0 : List Nat) (as : List Publish.Act)
   have := hi.wrCid w hw
   omega
 
-/-- Restart from a savepoint (`LoadCheckpoint` with a savepoint URI, e.g. into a fresh storage location): every
-id handed out afterwards is greater than the restored savepoint's id, and ids keep increasing strictly.
-(`_partial`: on this path the code does not look at job snapshot files already in the local storage, so ids of
-files there that are newer than the savepoint are not excluded — the job's own comment calls the savepoint
-start mode provisional; see the report.) -/
-theorem ids_after_savepoint_restart_partial (id : Nat) (calls : List Call) :
-    (∀ n ∈ createdIds (loadFromSavepoint id) calls, id < n) ∧
-    (createdIds (loadFromSavepoint id) calls).Pairwise (· < ·) ∧
-    ((published (loadFromSavepoint id) calls).map (·.id)).Pairwise (· < ·) ∧
-    (∀ snap ∈ published (loadFromSavepoint id) calls, id < snap.id) := by
-  have hi : Inv [] (loadFromSavepoint id) := by intro p hp; simp [loadFromSavepoint] at hp
-  refine ⟨created_gt calls _, created_pairwise calls _, published_pairwise calls [] _ hi, ?_⟩
-  intro snap hs
-  have := published_ge calls [] _ hi snap hs
-  simpa [loadFromSavepoint] using this
+/-- Restart from a savepoint (`LoadCheckpoint` with a savepoint URI) on any storage — the job's own, with
+whatever snapshot files and history it has (`files`, `written` as in every reachable state: each persisted id is
+bounded by a file still present), or a fresh one: every id handed out afterwards, over all call sequences, is
+greater than the restored savepoint's id and than every id ever persisted in that storage, and ids keep
+increasing strictly. -/
+theorem ids_after_savepoint_restart (id : Nat) (files written delivered : List Nat)
+    (hw : ∀ w ∈ written, ∃ f ∈ files, w ≤ f) (calls : List Call) :
+    let s0 := (Publish.bootSavepoint id files written delivered).store
+    (∀ n ∈ createdIds s0 calls, id < n ∧ (∀ w ∈ written, w < n) ∧ (∀ f ∈ files, f < n)) ∧
+    (createdIds s0 calls).Pairwise (· < ·) ∧
+    ((published s0 calls).map (·.id)).Pairwise (· < ·) ∧
+    (∀ snap ∈ published s0 calls, id < snap.id ∧ ∀ w ∈ written, w < snap.id) := by
+  intro s0
+  have hcid : s0.cid = max id (Publish.maxL files) := rfl
+  have hpend : s0.pending = none := rfl
+  have hi : Inv [] s0 := by intro p hp; rw [hpend] at hp; exact absurd hp (by simp)
+  have hwle : ∀ w ∈ written, w ≤ Publish.maxL files := by
+    intro w hwm
+    obtain ⟨f, hf, hle⟩ := hw w hwm
+    exact Nat.le_trans hle (Publish.le_maxL hf)
+  refine ⟨?_, created_pairwise calls _, published_pairwise calls [] _ hi, ?_⟩
+  · intro n hn
+    have := created_gt calls s0 n hn
+    rw [hcid] at this
+    refine ⟨by omega, fun w hwm => ?_, fun f hf => ?_⟩
+    · have := hwle w hwm; omega
+    · have := Publish.le_maxL hf; omega
+  · intro snap hs
+    have := published_ge calls [] s0 hi snap hs
+    rw [hpend, hcid] at this
+    simp at this
+    refine ⟨by omega, fun w hwm => ?_⟩
+    have := hwle w hwm; omega
+
+/-- The storage of every reachable state satisfies the hypothesis of `ids_after_savepoint_restart`. -/
+theorem reachable_storage_bounded (files0 : List Nat) (as : List Publish.Act) (s : Publish.Sys)
+    (obs : List Publish.Obs) (h : Publish.run (Publish.init files0) as = some (s, obs)) :
+    ∀ w ∈ s.pub.written, ∃ f ∈ s.pub.files, w ≤ f :=
+  (Publish.run_inv as (Publish.inv_init files0) h).wrFile
+
+/-- D49 (repaired): the old rule took the counter from the savepoint alone, so after rolling back to savepoint
+1 in a storage that holds checkpoint 3 the id 2 was handed out again; the repaired rule continues with 4. -/
+theorem oldSavepointCounter_counterexample :
+    createdIds (loadFromSavepointOld 1) [.create [] [1]] = [2] ∧
+    createdIds (Publish.bootSavepoint 1 [3] [3, 2, 1] []).store [.create [] [1]] = [4] := by decide
 
 /-- The regenerated code shape the sequential model relies on: every public call of the store is one `stateMu`
 critical section, `finishSnapshot` keeps that lock across `sourceSplitter.Checkpoint()` (so a finished snapshot
-is never visible as pending to another call), and `LoadCheckpoint` takes the id counter from the loaded
-checkpoint. -/
+is never visible as pending to another call), and `LoadCheckpoint` sets the id counter to the maximum of the loaded
+checkpoint's id and the newest local snapshot file's id. -/
 theorem calls_atomic :
-    Facts.c12CallsAtomic = 1 ∧ Facts.c12FinishHoldsLock = 1 ∧ Facts.c12LoadCounterFromLoaded = 1 := by decide
+    Facts.c12CallsAtomic = 1 ∧ Facts.c12FinishHoldsLock = 1 ∧ Facts.c12LoadCounterMaxLocal = 1 := by decide
 
 /-- A savepoint request while a checkpoint is pending folds into it: same id, nothing new is started,
 nothing is published by the request, only the flag changes. -/
